@@ -44,6 +44,15 @@ partial def decGo (j : Json) : GoVal :=
     let v : GoVal := .struct [("Field", true, .str f), ("Message", true, .str m), ("Code", true, .num c)]
       [("Error", .str (f ++ ": " ++ m)), ("Label", .str ("label-" ++ f))]
     if jbool j "ptr" then .ptr (some v) else v
+  | "scene" =>
+    -- the harness's `Scene`: `Rect` values and pointers behind the non-empty interface type `Shape`, in a field, a slice and a map
+    let num (k : String) : Rat := match jget j k with | .num x => (x.mantissa : Rat) / ((10 ^ x.exponent : Nat) : Rat) | _ => 0
+    let rect (l : String) (w h : Rat) : GoVal := .struct [("Label", true, .str l), ("W", true, .num w), ("H", true, .num h)] [("Area", .num (w * h))]
+    let rc := rect (jstr j "label") (num "w") (num "h")
+    let r2 := rect "second" 2 5
+    .struct [("Main", true, .iface (some rc)), ("Boxed", true, .iface (some (.ptr (some rc)))), ("None", true, .iface none),
+             ("Shapes", true, .slice [.iface (some rc), .iface (some r2), .iface (some (.ptr (some r2)))]),
+             ("ByName", true, .map [("p", .iface (some (.ptr (some r2)))), ("r", .iface (some rc))]), ("Any", true, .iface (some rc))] []
   | "twin" =>
     -- the harness's two function-local types called Product
     let t := jstr j "title"
